@@ -244,7 +244,17 @@ func checksumValue(value []byte) (uint64, error) {
 		return 0, err
 	}
 
-	return crc.Sum64(), nil
+	return nonZeroChecksum(crc.Sum64(), value), nil
+}
+
+// nonZeroChecksum keeps the checksum 0 for what it stands for in the index: "nothing to verify" (empty and nil values,
+// tables written before checksums existed). A non-empty value that happens to hash to 0 gets the value next to it
+// instead, on the writing and on the reading side alike, so that it is verified like every other value.
+func nonZeroChecksum(sum uint64, value []byte) uint64 {
+	if sum == 0 && len(value) > 0 {
+		return 1
+	}
+	return sum
 }
 
 // NewSSTableReader creates a new reader. The sstable base path is mandatory:
